@@ -2,7 +2,7 @@
    a proxy in r's table has an owner whose next-chain leads to r, and a call through it is somewhere on that chain. *)
 From CV Require Import Promise.Promise Promise.PromiseProofs Promise.PromiseJoin Promise.PromiseJoinThms
   Promise.PromiseJoinInv Promise.PromiseJoinRefs Promise.PromiseJoinDest Promise.PromiseJoinChain
-  Promise.PromiseJoinForest Promise.PromiseJoinLive.
+  Promise.PromiseJoinForest.
 Open Scope Z_scope.
 
 (* ---- rows of the client tables *)
